@@ -29,7 +29,7 @@ TOL = {
     "s2y2s": 1e-11, "y2s2y": 1e-11,
     "compose_cys": 1e-13, "compose_scy": 1e-13, "norm_sph": 1e-14, "norm_cyl": 1e-14,
     "phi_vs_atan2": 1e-15, "theta_vs_acos": 1e-9, "identity": 0.0,
-    "orth": 1e-14, "det": 1e-14, "zyz": 1e-14, "deg": 1e-12, "rotpts": 1e-13, "rotdist": 1e-13, "rotpts@int_forms": 1e-13, "int_forms": 0.0, "rotpts@float32": 1e-6,
+    "orth": 1e-14, "det": 1e-14, "zyz": 1e-14, "deg": 1e-12, "deg_same_numbers": 1e-14, "rotpts": 1e-13, "rotdist": 1e-13, "rotpts@int_forms": 1e-13, "int_forms": 0.0, "rotpts@float32": 1e-6,
     "pair_rot": 1e-12, "centroid_rot": 1e-12, "pair_tr": 1e-12, "centroid_tr": 1e-12, "rigid_pos": 1e-12,
     "tr3": 0.0, "rot3": 0.0,
 }
@@ -233,6 +233,11 @@ def _run_rot(case):
     resid["deg"] = fnum(np.abs(Rd - R).max() / big)
     Rd2 = rotation_matrix(math.degrees(a), math.degrees(b), math.degrees(g), False)
     flags = {"deg_positional_same": bool(np.array_equal(Rd, Rd2)), "shape": bool(R.shape == (3, 3))}
+    # the SAME three numbers read as degrees (right after they were used as radians), then as radians again
+    Rn = rotation_matrix(a, b, g, radians=False)
+    refn = _Rz(math.radians(g)) @ _Ry(math.radians(b)) @ _Rz(math.radians(a))
+    resid["deg_same_numbers"] = fnum(np.abs(Rn - refn).max())
+    flags["repeat_after_other_unit"] = bool(np.array_equal(rotation_matrix(a, b, g), R) and np.array_equal(rotation_matrix(a, b, g, radians=False), Rn))
     rng = rng_for("rotpts", a, b, g)
     pts = rng.normal(size=(7, 3)) * 3
     rp = rotate_points(pts, a, b, g)
